@@ -202,7 +202,9 @@ func (fr *Frame) callContract(st *State, sig *types.Signature, fn *ssa.Function,
 		if sv, ok := r.applyDefinitional(env, fc, sig, svs); ok && sv.t.S != "nil" {
 			want := r.eng.u.sortOf(sig.Results().At(0).Type())
 			if sv.t.Sort == want {
-				return r.def("d_"+mangle(shortFuncName(name)), sv.t)
+				res := r.def("d_"+mangle(shortFuncName(name)), sv.t)
+				r.knownFacts(st, res, sig.Results().At(0).Type())
+				return res
 			}
 		} else if ok {
 			return r.eng.u.zeroOf(sig.Results().At(0).Type())
